@@ -25,12 +25,14 @@ class NotSupported(Exception):
 
 class Bounds:
     def __init__(self, tier):
-        quick = tier == 'quick'
+        quick = tier.startswith('quick')
         self.array_counts = [1, 0, 2] if quick else [1, 0, 2, 3]
         self.string_lens = [1, 0, 2] if quick else [1, 0, 2, 3]
         self.endless_counts = [1, 0, 2] if quick else [1, 0, 2, 3]
         self.mask_patterns = 4
         self.max_shapes = 24 if quick else 400
+        if tier == 'quick-sizes':
+            self.max_shapes = 6
 
     def describe(self):
         return {'variable_array_counts': sorted(self.array_counts), 'string_lengths': sorted(self.string_lens),
